@@ -313,7 +313,7 @@ theorem subtree_atomic (pov : Bool) (a : Attrs) (kids children blocks floats bc 
 
 example : ({ plain 1 .BlockBox with opacity := 1 / 2 } : Attrs).opacity < 1 := by decide +kernel
 example : (ctxEnv { plain 1 .BlockBox with opacity := 1 / 2, matrix := .regular 7 } true {}) =
-    { alphas := [1 / 2], transforms := [7], clips := 0 } := by decide +kernel
+    { alphas := [1 / 2], transforms := [7], clips := [] } := by decide +kernel
 
 /-- An opacity below 1 reaches every item of the subtree: the group is in the item's list. -/
 theorem opacity_applies_to_subtree (pov : Bool) (a : Attrs) (kids children blocks floats bc : List Node)
